@@ -211,7 +211,11 @@ def check_one(ctx: runner.Ctx, case):  # noqa: C901
                       f"{head}: strict -> {outs[True][1]!r}; lax raised {describe(ex)}")
     elif overlap:
         ctx.count("unspecified_value_under_overlapping_lax_union")
-    elif not tspec.canon_eq(outs[True][1], outs[False][1]):
+    elif not tspec.canon_eq(outs[True][1], outs[False][1]) and not (
+            tspec.has_unordered_input(case["datum"])
+            and tspec.unordered(tspec.canon(outs[True][1])) == tspec.unordered(tspec.canon(outs[False][1]))):
+        # (a set fed into an ordered target: each mode loads a fresh build of the datum, and the iteration order of a set
+        # with identity-hashed members differs between builds; equal up to order is all that can be asked)
         ctx.violation("lax_value_differs", (_first_diff_tag(t, outs[True][1], outs[False][1], e),), case,
                       f"{head}: strict -> {outs[True][1]!r}; lax -> {outs[False][1]!r}")
     try:
